@@ -13,18 +13,38 @@ import (
 func ImpliedSchema(spec Spec) *hcl.BodySchema {
 	var attrs []hcl.AttributeSchema
 	var blocks []hcl.BlockHeaderSchema
+	attrIdx := map[string]int{}
+	blockSeen := map[string]struct{}{}
 
 	// visitSameBodyChildren walks through the spec structure, calling
 	// the given callback for each descendent spec encountered. We are
 	// interested in the specs that reference attributes and blocks.
 	var visit visitFunc
 	visit = func(s Spec) {
+		// Wrapper specs such as DefaultSpec report the schemata of their
+		// children themselves and the children are then also visited below,
+		// so the same attribute or block type can be reported more than
+		// once. A body must be asked for each name only once: asking for a
+		// required attribute a second time makes it appear to be missing.
 		if as, ok := s.(attrSpec); ok {
-			attrs = append(attrs, as.attrSchemata()...)
+			for _, attrS := range as.attrSchemata() {
+				if i, exists := attrIdx[attrS.Name]; exists {
+					attrs[i].Required = attrs[i].Required || attrS.Required
+					continue
+				}
+				attrIdx[attrS.Name] = len(attrs)
+				attrs = append(attrs, attrS)
+			}
 		}
 
 		if bs, ok := s.(blockSpec); ok {
-			blocks = append(blocks, bs.blockHeaderSchemata()...)
+			for _, blockS := range bs.blockHeaderSchemata() {
+				if _, exists := blockSeen[blockS.Type]; exists {
+					continue
+				}
+				blockSeen[blockS.Type] = struct{}{}
+				blocks = append(blocks, blockS)
+			}
 		}
 
 		s.visitSameBodyChildren(visit)
